@@ -300,7 +300,15 @@ func (sm *SecureMessaging) Encode(cApdu *CApdu) (out *CApdu, err error) {
 		return nil, err
 	}
 
-	out = NewCApdu(CLA_MASK, cApdu.ins, cApdu.p1, cApdu.p2, nodes.Encode(), calcSmLe(cApdu))
+	smData := nodes.Encode()
+	smLe := calcSmLe(cApdu)
+	if len(smData) > 255 {
+		// the data objects may push a short command into extended length, in which
+		// case the new Le must be the extended form too (0x0000)
+		smLe = 65536
+	}
+
+	out = NewCApdu(CLA_MASK, cApdu.ins, cApdu.p1, cApdu.p2, smData, smLe)
 
 	slog.Debug("Encode", "In", cApdu.String(), "Out", out.String(), "Out(bytes)", utils.BytesToHex(out.Encode()))
 
